@@ -151,6 +151,7 @@ fn handle(line: &str) -> Option<String> {
             let pol = match t.raw()? {
                 "E" => IfMissing::Error,
                 "I" => IfMissing::Ignore,
+                "D" => IfMissing::Defer,
                 "M" => IfMissing::Empty,
                 _ => return None,
             };
